@@ -1,7 +1,10 @@
 package vapp
 
 import (
+	"encoding/hex"
 	"encoding/json"
+	"math/big"
+	"sort"
 	"strings"
 )
 
@@ -10,6 +13,11 @@ func writeSubsysExt(spec string, enc *json.Encoder, t int, sc *Scenario, tr *Tra
 	switch spec {
 	case "Ons":
 		for _, e := range OnsEvents(t, sc, tr) {
+			_ = enc.Encode(e)
+			n++
+		}
+	case "Olvm":
+		for _, e := range OlvmEvents(t, sc, tr) {
 			_ = enc.Encode(e)
 			n++
 		}
@@ -151,4 +159,139 @@ func OnsEvents(t int, sc *Scenario, tr *Transcript) []OnsEvent {
 		prev = b.State
 	}
 	return evs
+}
+
+// ---------------------------------------------------------------------------------
+// Olvm_Trace events (C17)
+
+type OlvmTx struct {
+	K        string `json:"k"`
+	From     string `json:"from"`
+	To       string `json:"to"`
+	Amt      int64  `json:"amt"`
+	Nonce    int64  `json:"nonce"`
+	Gas      int64  `json:"gas"`
+	Price    int64  `json:"price"`
+	Used     int64  `json:"used"`
+	Status   string `json:"status"`
+	Prog     string `json:"prog"`
+	Created  string `json:"created"`
+	Arg      string `json:"arg"`
+	ChainOk  bool   `json:"chainOk"`
+	SignedBy string `json:"signedBy"`
+	Probed   int64  `json:"probed"`
+	Code     int64  `json:"code"`
+	Fee      int64  `json:"fee"`
+	Payer    string `json:"payer"`
+}
+
+type OlvmState struct {
+	Bal   map[string]int64 `json:"bal"`
+	Nonce map[string]int64 `json:"nonce"`
+	Coded []string         `json:"coded"` // addresses whose account record carries code
+	Pool  int64            `json:"pool"`  // fee pool and the validators' fee shares cut from it
+}
+
+type OlvmEvent struct {
+	T     int       `json:"t"`
+	Ev    string    `json:"ev"`
+	H     int64     `json:"h"`
+	Txs   []OlvmTx  `json:"txs"`
+	Other []string  `json:"other"`
+	S     OlvmState `json:"s"`
+}
+
+func olvmState(s *AbsState) OlvmState {
+	o := OlvmState{Bal: map[string]int64{}, Nonce: map[string]int64{}, Coded: []string{}, Pool: s.FeePool}
+	for n, m := range s.Bal {
+		if v, ok := m["OLT"]; ok {
+			o.Bal[n] = v
+		}
+	}
+	for n, v := range s.Nonce {
+		if v != 0 {
+			o.Nonce[n] = v
+		}
+	}
+	for n := range s.Code {
+		o.Coded = append(o.Coded, n)
+	}
+	sort.Strings(o.Coded)
+	for _, v := range s.FeeShare {
+		o.Pool += v
+	}
+	return o
+}
+
+func OlvmEvents(t int, sc *Scenario, tr *Transcript) []OlvmEvent {
+	if tr.InitState == nil {
+		return nil
+	}
+	g := BuildGenesis(sc.Genesis)
+	evs := []OlvmEvent{{T: t, Ev: "Init", Txs: []OlvmTx{}, Other: []string{}, S: olvmState(tr.InitState)}}
+	for _, b := range tr.Blocks {
+		if b.State == nil {
+			break
+		}
+		e := OlvmEvent{T: t, Ev: "Block", H: b.H, Txs: []OlvmTx{}, Other: []string{}, S: olvmState(b.State)}
+		for _, tx := range b.Txs {
+			if !accepted(tx) {
+				continue
+			}
+			r := tx.Req
+			a, ok := argInt(r, "amt")
+			switch r.Kind {
+			case "SEND":
+				e.Txs = append(e.Txs, OlvmTx{K: "SEND", From: r.S("from"), To: r.S("to"), Amt: a, Fee: feeOf(tx), Payer: tx.FeePay, Probed: -1})
+			case "OLVM":
+				price, gas := r.Price, r.Gas
+				if price == 0 {
+					price = 1
+				}
+				if gas == 0 {
+					gas = 120000
+				}
+				x := OlvmTx{K: "OLVM", From: r.S("from"), To: r.S("to"), Amt: a, Nonce: r.I("nonce"), Gas: gas, Price: price, Used: tx.Deliver.GasUsed,
+					ChainOk: r.S("chain") != "wrong", SignedBy: r.S("from"), Probed: -1}
+				if len(r.Signers) > 0 {
+					x.SignedBy = r.Signers[0]
+				}
+				d := r.S("data")
+				if strings.HasPrefix(d, "create:") {
+					x.Prog = d[7:]
+				}
+				if strings.HasPrefix(d, "arg:") {
+					x.Arg = d[4:]
+				}
+				if o := tx.Deliver.Olvm; o != nil {
+					x.Status = o.Status
+					if o.Contract != "" {
+						x.Created = g.Name(mustHex(o.Contract))
+					}
+					for _, l := range o.Logs {
+						if v, isInt := new(big.Int).SetString(l.Data, 16); isInt && v.IsInt64() && v.Int64() < Lim {
+							x.Probed = v.Int64()
+						}
+					}
+				}
+				e.Txs = append(e.Txs, x)
+			default:
+				e.Other = append(e.Other, r.Kind)
+				continue
+			}
+			if !ok {
+				e.Other = append(e.Other, r.Kind+":unrepresentable-amount")
+			}
+		}
+		evs = append(evs, e)
+	}
+	return evs
+}
+
+func mustHex(s string) []byte {
+	b, err := hex.DecodeString(s)
+	if err != nil {
+		panic(err)
+	}
+	return b
 }
